@@ -547,7 +547,8 @@ def validate_total(trace_spec: str, cfg: str, traces: list, *,
     finally:
         shutil.rmtree(d, ignore_errors=True)
     out = {}
-    for m in re.finditer(r'<<"VERDICT", (\d+), (\d+), "([^"]*)"(?:, \{([^}]*)\})?>>', res.output):
+    for m in re.finditer(r'<<\s*"VERDICT",\s*(\d+),\s*(\d+),\s*"([^"]*)"(?:,\s*\{([^}]*)\})?\s*>>',
+                         res.output):
         if m.group(4) is not None:
             used = [x.strip().strip('"') for x in m.group(4).split(',') if x.strip()]
             out[int(m.group(1))] = (int(m.group(2)), m.group(3), used)
